@@ -290,7 +290,12 @@ def tempfile_decorator(func):
             except Exception as e:
                 raise e
             finally:
-                os.unlink(f.name)
+                # the file may already be gone (a failed overwrite removes it):
+                # don't mask the real error with a FileNotFoundError
+                try:
+                    os.unlink(f.name)
+                except FileNotFoundError:
+                    pass
 
         else:
             # FIXME: it's a string, so it's probably a filename, but we should
